@@ -757,13 +757,20 @@ fn c09_rate_x(max_items: u32, twin: bool) {
       exec.run();
       model_exec_run!();
     }
-    if twin {
+    let twin_after = twin && e::choose_bool();
+    if twin && !twin_after {
       if let Some(mut hb) = cat::handle_nth(0, 1) {
         hb.next(Val::var());
       }
     }
     e::note(format!("t={} source.{}", world::now(), world::show_ev(&ev)));
     feed(&mut h, &ev);
+    if twin_after {
+      if let Some(mut hb) = cat::handle_nth(0, 1) {
+        e::note("  (twin subscription's input emits)".to_string());
+        hb.next(Val::var());
+      }
+    }
     // model of the source event
     let now = world::now();
     let _ = timers_first;
